@@ -170,8 +170,7 @@ Proof.
   specialize (H _ El). cbn [fst] in H. rewrite (candidates_have_ts_ext p q Hq) in H. discriminate.
 Qed.
 
-(* ---- a refuted shape of the second layer: Node's package scope lookup stops
-   at a node_modules directory, esbuild's nearest-package.json walk does not ---- *)
+(* ---- the former D12 witness: a directory without package.json inside node_modules ---- *)
 Definition pw_ (l : list String.string) : path := map s_ l.
 Definition w_scope_fs : fsmap :=
   [ (pw_ [], EDir (Some (mkPkg (Some (s_ "rootpkg")) None (Some (JObj [(s_ ".", JStr (s_ "./own.js"))])) None)));
@@ -183,10 +182,11 @@ Definition w_scope_fs : fsmap :=
     (pw_ ["node_modules"; "nopkg"], EDir None);
     (pw_ ["node_modules"; "nopkg"; "index.js"], EFile) ].
 
-Lemma refuted_scope_boundary :
+(* D12 was repaired in /repo (6e6e7fa): the model follows the fixed walk and the former witness now agrees *)
+Lemma fixed_scope_boundary :
   wf_fsb w_scope_fs = true /\ no_tsb w_scope_fs = true
   /\ resolve (fun _ => false) w_scope_fs KRequire [] (pw_ ["node_modules"; "nopkg"]) (s_ "rootpkg")
-     = RFile (pw_ ["own.js"])
+     = RFile (pw_ ["node_modules"; "rootpkg"; "copy.js"])
   /\ require_resolve (fun _ => false) w_scope_fs [] (pw_ ["node_modules"; "nopkg"]) (s_ "rootpkg")
      = NFile (pw_ ["node_modules"; "rootpkg"; "copy.js"]).
 Proof. repeat split; vm_compute; reflexivity. Qed.
